@@ -38,6 +38,17 @@ func cfgB() cors.Config {
 		ExtraConfig: cors.ExtraConfig{PreflightSuccessStatus: 200, PrivateNetworkAccess: true}}
 }
 
+// cfgT has A's shape (every list as long as A's, every scalar equal) and other list elements: the configuration a
+// caller reaches by overwriting the elements of A's lists in place.
+func cfgT() cors.Config {
+	return cors.Config{Origins: []string{"https://b.example"}, Methods: []string{"DELETE"}, RequestHeaders: []string{"X-B"}, ResponseHeaders: []string{"X-Rb"}, MaxAgeInSeconds: 30}
+}
+
+// tpl is the one long-lived Config value of the "tplA"/"tplT" reconfigurations: its list elements are overwritten
+// in place and the same value is handed to Reconfigure again (what a reload loop that unmarshals into one variable
+// does). Each long run starts with a fresh one.
+var tpl cors.Config
+
 func cfgInvalid() cors.Config {
 	return cors.Config{Origins: []string{"https://c.example", "https://c.example/path"}, Methods: []string{"QUERY"}}
 }
@@ -191,6 +202,16 @@ func doOp(m *cors.Middleware, o opSpec) string {
 		case "invalid":
 			c := cfgInvalid()
 			err = m.Reconfigure(&c)
+		case "tplA", "tplT":
+			src := cfgA()
+			if o.Arg == "tplT" {
+				src = cfgT()
+			}
+			copy(tpl.Origins, src.Origins)
+			copy(tpl.Methods, src.Methods)
+			copy(tpl.RequestHeaders, src.RequestHeaders)
+			copy(tpl.ResponseHeaders, src.ResponseHeaders)
+			err = m.Reconfigure(&tpl)
 		}
 		return fmt.Sprintf("err=%t", err != nil)
 	case "setdebug":
@@ -571,6 +592,46 @@ func serveVia(h http.Handler, fw *fwdHandler, name string) string {
 var longRunPatterns = [][]opSpec{
 	{{"reconfigure", "B"}, {"reconfigure", "A+"}, {"setdebug", "true"}, {"reconfigure", "A"}, {"setdebug", "false"}},
 	{{"reconfigure", "B"}, {"reconfigure", "A+"}, {"setdebug", "true"}, {"reconfigure", "A"}, {"config", ""}, {"setdebug", "false"}, {"reconfigure", "invalid"}, {"reconfigure", "nil"}, {"setdebug", "true"}, {"reconfigure", "A"}, {"setdebug", "true"}},
+	// one Config value whose list elements are overwritten in place between two Reconfigure calls
+	{{"reconfigure", "tplT"}, {"reconfigure", "tplA"}, {"setdebug", "true"}, {"reconfigure", "tplT"}, {"config", ""}, {"reconfigure", "tplA"}, {"setdebug", "false"}},
+	{{"reconfigure", "tplT"}, {"reconfigure", "B"}, {"reconfigure", "tplT"}, {"reconfigure", "tplA"}, {"reconfigure", "A+"}, {"setdebug", "true"}, {"reconfigure", "tplA"}, {"reconfigure", "invalid"}, {"reconfigure", "tplT"}},
+}
+
+// longRunExpectation: what a middleware built directly for one (configuration, debug) state answers to the probes,
+// and its Config(). All of them are computed once, at process start, before any other use of the package under test:
+// the expectation must not depend on what earlier calls may have left behind in process-wide state.
+type longRunExpectation struct {
+	probes []string
+	config string
+	err    string
+}
+
+var longRunExpect = map[string]longRunExpectation{}
+
+func warmLongRunExpect() {
+	for _, cfg := range []string{"", "A", "B", "A+", "T"} {
+		for _, dbg := range []bool{false, true} {
+			var e longRunExpectation
+			fresh := new(cors.Middleware)
+			if cfg != "" {
+				c := map[string]func() cors.Config{"A": cfgA, "B": cfgB, "A+": cfgAplus, "T": cfgT}[cfg]()
+				var err error
+				if fresh, err = cors.NewMiddleware(c); err != nil {
+					e.err = "configuration " + cfg + " rejected: " + err.Error()
+					longRunExpect[fmt.Sprint(cfg, dbg)] = e
+					continue
+				}
+				fresh.SetDebug(dbg)
+			}
+			ffw := &fwdHandler{}
+			fh := fresh.Wrap(ffw)
+			for _, p := range longRunProbes {
+				e.probes = append(e.probes, serveVia(fh, ffw, p))
+			}
+			e.config = renderConfig(fresh.Config())
+			longRunExpect[fmt.Sprint(cfg, dbg)] = e
+		}
+	}
 }
 
 var longRunProbes = []string{"preflight-fail-method", "actual-A", "actual-B", "actual-Aplus", "preflight-ok-B", "noncors-options"}
@@ -588,6 +649,9 @@ func longRunGaps(pat int) []int {
 	for k := 1; k <= 70; k++ {
 		g = append(g, k)
 	}
+	if pat >= 2 {
+		return g
+	}
 	for _, c := range []int{128, 256, 512, 768, 1024, 4096, 65536} {
 		for d := -3; d <= 3; d++ {
 			g = append(g, c+d)
@@ -602,6 +666,7 @@ func longRunGaps(pat int) []int {
 func longRun(init string, gap, pat int) string {
 	longRunPattern := longRunPatterns[pat]
 	m := newInit(init)
+	tpl = cfgA()
 	fw := &fwdHandler{}
 	h := m.Wrap(fw)
 	cfg, dbg := "A", init == "A+debug"
@@ -622,27 +687,27 @@ func longRun(init string, gap, pat int) string {
 			}
 		case o.Arg == "nil":
 			cfg, dbg = "", false
+		case o.Arg == "tplA":
+			cfg = "A"
+		case o.Arg == "tplT":
+			cfg = "T"
 		case o.Arg != "invalid":
 			cfg = o.Arg
 		}
 	}
-	fresh := new(cors.Middleware)
-	if cfg != "" {
-		c := map[string]func() cors.Config{"A": cfgA, "B": cfgB, "A+": cfgAplus}[cfg]()
-		var err error
-		if fresh, err = cors.NewMiddleware(c); err != nil {
-			return "configuration " + cfg + " rejected: " + err.Error()
-		}
-		fresh.SetDebug(dbg)
+	if len(longRunExpect) == 0 {
+		warmLongRunExpect()
 	}
-	ffw := &fwdHandler{}
-	fh := fresh.Wrap(ffw)
-	for _, p := range longRunProbes {
-		if got, want := serveVia(h, fw, p), serveVia(fh, ffw, p); got != want {
+	e := longRunExpect[fmt.Sprint(cfg, dbg)]
+	if e.err != "" {
+		return e.err
+	}
+	for i, p := range longRunProbes {
+		if got, want := serveVia(h, fw, p), e.probes[i]; got != want {
 			return fmt.Sprintf("a handler obtained from Wrap at the start served requests, then %d control calls completed (pattern %v repeated) with no request in between; request %s through that handler is now answered\n  %s\nbut the state is (configuration %q, debug %t), for which a fresh middleware answers\n  %s", gap, longRunPattern, p, got, cfg, dbg, want)
 		}
 	}
-	if got, want := renderConfig(m.Config()), renderConfig(fresh.Config()); got != want {
+	if got, want := renderConfig(m.Config()), e.config; got != want {
 		return fmt.Sprintf("after %d control calls Config() is %s, a fresh middleware for the predicted state says %s", gap, got, want)
 	}
 	return ""
@@ -757,6 +822,7 @@ func workerMain(c *vlib.Ctx, shard, nshards int) {
 
 func main() {
 	debug.SetGCPercent(-1) // no collection (hence no address reuse) inside an execution; see explorer.explore
+	warmLongRunExpect() // before anything else touches the package under test
 	c := vlib.NewCtx()
 	if c.Prop != "C07" {
 		vlib.HarnessError("vsched serves C07 only")
@@ -819,7 +885,13 @@ func main() {
 			}
 		}
 	}
-	c.Set("long_run_gaps", len(longRunGaps(0))+len(longRunGaps(1)))
+	c.Set("long_run_gaps", len(longRunGaps(0))+len(longRunGaps(1))+len(longRunGaps(2))+len(longRunGaps(3)))
+	if c.Violated() {
+		// the sequential pre-pass has a witness already; code that fails it may keep process-wide state, under which
+		// the schedule exploration below would not even be deterministic
+		c.Cap("schedule exploration skipped: the sequential long-run pre-pass found a violation")
+		os.Exit(c.Finish(level, rule))
+	}
 	scs := scenarios(c.Thorough())
 	nw := runtime.NumCPU()
 	if nw > len(scs) {
